@@ -29,6 +29,7 @@ _CACHE = {}
 
 
 def get(prog):
-    if id(prog) not in _CACHE:
-        _CACHE[id(prog)] = Analysis(prog)
-    return _CACHE[id(prog)]
+    # memoised on the Program object itself (object ids are reused after garbage collection)
+    if "_analysis" not in prog.__dict__:
+        prog.__dict__["_analysis"] = Analysis(prog)
+    return prog.__dict__["_analysis"]
